@@ -679,6 +679,11 @@ example : WFW [([(0, 5), (1, 2), (2, 1)], 2), ([(0, 1), (1, 3), (2, 0)], 2)] := 
   simp at hbw
   rcases hbw with rfl | rfl <;> norm_num
 
+/-- fix 4ae6629: three candidates level for two seats — the tie is listed once per seat it contests -/
+theorem allocated_tie_places_fixed :
+    allocatedSelector Gen.Quota.hare [([(0, 1), (1, 1), (2, 1)], 2)] 2
+      = .ok [Key.tie [0, 1, 2], Key.tie [0, 1, 2]] := by decide +kernel
+
 /-! ### Witnesses of the open findings (the model reproduces the defects of the current code)
 
   The property text is FALSE of the current code on these inputs; the general statements for these evaluators are
